@@ -30,6 +30,12 @@ LeavesOf(fam) ==
                           Tpl(<<TpLit("a."), TpStr>>), Tpl(<<TpStr>>), Tpl(<<TpOne(<<"a", "ab">>), TpLit("c")>>)}
     [] fam = "nonjson" -> {Prim("Date"), Prim("bigint"), TaT("Uint8Array"), TaT("Float64Array"), TString, TNumber}
     [] fam = "format" -> {SFmt(<<"f1">>), SFmt(<<"f1", "f2">>), NFmt(<<"n1">>), NFmt(<<"n1", "n2">>), TString}
+    [] fam = "describe" -> {Obj(<<Prop("my-key", TString, FALSE), Prop("b", TNumber, TRUE)>>, <<>>),
+                            Obj(<<Prop("a b", TString, TRUE)>>, <<>>),
+                            Obj(<<Prop("0", TString, FALSE), Prop("$x", TNumber, FALSE)>>, <<>>),
+                            Obj(<<Prop("a", TString, FALSE)>>, <<Ix(TString, Uni(<<TString, TNumber>>))>>),
+                            Tup(<<TString>>, <<TNumber>>), Prim("bigint"), Prim("Date"), MapT(TString, TNumber), SetT(TString),
+                            Uni(<<LS("a"), LS("b")>>), Prim("void"), TUndef, Prim("object"), TNever}
     [] OTHER -> {TString}
 
 PoolOf(fam) ==
@@ -41,6 +47,7 @@ PoolOf(fam) ==
     [] fam = "tpl"    -> {TString, LS("x1")}
     [] fam = "nonjson" -> {TString, TNumber, Prim("Date")}
     [] fam = "format" -> {TString, TNumber}
+    [] fam = "describe" -> {TString, Obj(<<Prop("my-key", TNumber, FALSE)>>, <<>>)}
     [] OTHER -> {TString}
 
 Unary ==
@@ -51,6 +58,7 @@ Unary ==
     [] Family = "tpl"    -> {"arr", "objReq", "index", "indexKey"}
     [] Family = "nonjson" -> {"arr", "objReq", "objOpt", "set", "alias"}
     [] Family = "format" -> {"arr", "objReq", "index"}
+    [] Family = "describe" -> {"arr", "objReq", "objOpt", "alias", "rec", "shared", "recTuple", "index"}
     [] OTHER -> {}
 
 Binary ==
@@ -61,6 +69,7 @@ Binary ==
     [] Family = "tpl"    -> {"union"}
     [] Family = "nonjson" -> {"map", "mapK", "union", "obj2"}
     [] Family = "format" -> {"union", "obj2"}
+    [] Family = "describe" -> {"union", "obj2", "inter"}
     [] OTHER -> {}
 
 FreshName == IF env = <<>> THEN "A" ELSE IF Len(env) = 1 THEN "B" ELSE "C"
@@ -92,7 +101,7 @@ Init == /\ ty \in LeavesOf(Family)
         /\ depth = 0
         /\ last = "leaf"
 
-Wrap(a) == /\ a \in Unary \ {"alias", "rec", "recTuple", "iface"}
+Wrap(a) == /\ a \in Unary \ {"alias", "rec", "recTuple", "iface", "shared"}
            /\ ty' = ApplyUnary(a, ty)
            /\ UNCHANGED env
 
@@ -128,6 +137,13 @@ RecTuple == /\ "recTuple" \in Unary
                /\ env' = Append(env, [n |-> n, kind |-> "type", ty |-> Tup(<<ty>>, <<Ref(n)>>)])
                /\ ty' = Ref(n)
 
+\* type A = <ty>; root = { x: A, y: A }  (a named type referenced twice: describe() must declare it once)
+Shared == /\ "shared" \in Unary
+          /\ Len(env) < 2
+          /\ LET n == FreshName IN
+             /\ env' = Append(env, [n |-> n, kind |-> "type", ty |-> ty])
+             /\ ty' = Obj(<<Prop("x", Ref(n), FALSE), Prop("y", Arr(Ref(n)), TRUE)>>, <<>>)
+
 Next == /\ depth < MaxDepth
         /\ depth' = depth + 1
         /\ \/ \E a \in Unary : Wrap(a) /\ last' = a
@@ -136,6 +152,7 @@ Next == /\ depth < MaxDepth
            \/ Iface /\ last' = "iface"
            \/ Rec /\ last' = "rec"
            \/ RecTuple /\ last' = "recTuple"
+           \/ Shared /\ last' = "shared"
 
 Spec == Init /\ [][Next]_vars
 
